@@ -18,7 +18,8 @@ _streams.sort(key=lambda s: _ORDER.index(s["name"]) if s["name"] in _ORDER else 
 PROPS["C12"] = dict(
     driver="genesis",
     props_file="Props/C12.v",
-    coq_targets=["Genesis/Check.vo", "Props/C12Link.vo"],
+    coq_targets=["Genesis/Check.vo"],
+    extra_props_files=["Props/C12Link.v"],
     check_module="Genesis.Check",
     check_fn="check_all",
     streams=[dict(coq_shard=40, **{k: v for k, v in s.items() if k != "nontrivial"}) for s in _streams],
